@@ -274,7 +274,12 @@ where
             seed_256[16..24].copy_from_slice(&self.seed.to_ne_bytes());
             //            seed_256[24..32].copy_from_slice(&0xcf7355744a6e8145_u64.to_ne_bytes());
 
-            let mut rng = Xoshiro256PlusPlus::from_seed(seed_256);
+            // the three words are mixed before seeding : with from_seed on the raw words the first output of
+            // Xoshiro256PlusPlus reads only state words 0 and 3, so every occurrence of an element started its race
+            // at the same value and the ranking of the (element, occurrence) pairs was not uniform.
+            let mut mixer = WyHash::with_seed(0x9e3779b97f4a7c15);
+            mixer.write(&seed_256[0..24]);
+            let mut rng = Xoshiro256PlusPlus::seed_from_u64(mixer.finish());
             x = Exp1.sample(&mut rng);
             let mut nb_inserted = 0;
             while x < self.max_tracker.get_max_value() {
